@@ -184,8 +184,10 @@ def _runner(kind, clip, num_save):
                 ep = (h_adm / dt) ** p
                 # watchdog step (attempt budget exhausted, the scripted solver jumped): let the run end
                 ep = jnp.where(proposed.t - previous.t > 1e29, 1.0, ep)
-                jax.debug.callback(log.add("err"), previous.t, dt, ep, proposed.t, ordered=True)
-                return ep, state
+                jax.debug.callback(log.add("err"), previous.t, dt, ep, proposed.t, state, ordered=True)
+                # the estimator state counts the calls it has seen (like a random key that is advanced per call):
+                # the state handed to an attempt must be the one that belongs to the state the attempt starts from
+                return ep, state + 1.0
 
         if kind == "pi":
             ctrl = ivpsolve.control_proportional_integral(safety=cparams[0], factor_min=cparams[1], factor_max=cparams[2],
@@ -323,6 +325,7 @@ def _monitor(res, case, save_at, ts, us, nsteps, ev):
 
     # internal consistency of the trace itself: step -> err -> ctrl triples
     t_cur, u_cur, n_cur = 0.0, 0.0, 0        # state after the last accepted attempt
+    est_cur = 0.0                              # estimator state after the last accepted attempt
     mem_expected = 1.0                         # PI memory: error_power of the last accepted attempt
     reports = []                               # (kind, t, from_t, to_t, num_steps)
     accepted_before_report = []
@@ -338,13 +341,18 @@ def _monitor(res, case, save_at, ts, us, nsteps, ev):
             if i + 2 >= len(ev) or ev[i + 1][0] != "err" or ev[i + 2][0] != "ctrl":
                 raise RuntimeError("trace is not made of (step, err, ctrl) triples")
             _, t, dt, u, n = e
-            _, te, dte, ep, t_new = ev[i + 1]
+            _, te, dte, ep, t_new, est_in = ev[i + 1]
             _, dt_in, ep_c, dt_out, mem_in, mem_out = ev[i + 2]
             # I1 / I9: every attempt starts from the state of the last accepted attempt, bit-identically
             if t != t_cur or u != u_cur or n != n_cur:
                 res.violate("I1/I9:state", f"attempt starts from (t={t}, u={u}, n={n}) but the last accepted state is (t={t_cur}, u={u_cur}, n={n_cur})")
             if te != t or dte != dt:
                 res.violate("I7:estimator_args", "error estimator saw a different (t, dt) than the solver step")
+            # I9 (estimator part): the estimator state handed to an attempt is the one produced by the last accepted
+            # attempt (initially the initial one) - a rejected attempt must not leak its estimator state either
+            if est_in != est_cur:
+                res.violate("I9:estimator_state", f"attempt from t={t} received estimator state {est_in}, but the state belonging to the last accepted "
+                            f"attempt is {est_cur} (a rejected attempt leaked its state)")
             # I3: proposal = attempted step x factor in [factor_min, factor_max]; the attempted step is the clipped one
             if dt_in != dt:
                 res.violate("I3:controller_input", f"controller was applied to dt={dt_in}, but the attempted step was dt={dt}")
@@ -373,6 +381,7 @@ def _monitor(res, case, save_at, ts, us, nsteps, ev):
                 if t_new != t_cur:
                     res.violate("I1:time", f"accepted attempt ends at {t_new}, expected {t_cur}")
                 mem_expected = ep
+                est_cur = est_in + 1.0
                 last_rejected = None
             else:
                 n_rej += 1
